@@ -232,3 +232,6 @@ raw("FX-D42-source-comments-of-library-lines", "C02", {"src": {
 raw("FX-D43-tail-call-option-and-builtin-last-statement", "C02", {"src": {
     "": HDR + "def f(a):\n    db.Setting = a\n    yield_()\ndef g(a):\n    d1.Setting = a\n    sb(HASH(\"StructureWallLight\"), LogicType.On, 1)\nwhile True:\n    f(1)\n    f(2)\n    g(3)\n    g(4)\n"},
     "env_seeds": [1], "pool": POOL, "vectors": [64, 68], "pragma_vectors": []})
+raw("FX-D44-library-call-inside-main-function", "C13", {
+    "A": {"": HDR + "from library import m\ndef f(a):\n    m.g(a + 1)\nwhile True:\n    f(1)\n    f(2)\n    yield_()\n", "m": HDR + "def g(a):\n    d1.Setting = a\n"},
+    "B": HDR + "def m_g(a):\n    d1.Setting = a\ndef f(a):\n    m_g(a + 1)\nwhile True:\n    f(1)\n    f(2)\n    yield_()\n", "opts": {}})
